@@ -243,6 +243,13 @@ pub fn ref_eval<BF: PrimeField64, EF: ExtensionField<BF>>(p: &Program) -> RefOut
                 }
             }
             Call::Select(b, t, s) => {
+                // `select` documents b in {0,1}; the builder's coefficient-wise decomposition of a
+                // select result relies on it, so a non-boolean selector is a violated precondition
+                if let Some(bv) = g(*b) {
+                    if bv != EF::ZERO && bv != EF::ONE {
+                        precond_violated = true;
+                    }
+                }
                 vals.push(g(*b).zip(g(*t)).zip(g(*s)).map(|((b, t), s)| s + b * (t - s)))
             }
             Call::Connect(a, b) => {
@@ -836,7 +843,7 @@ impl<'a, BF: PrimeField64, EF: ExtensionField<BF>> Gen<'a, BF, EF> {
 
     /// Connect shapes that keep the program satisfiable.
     fn connect_shape(&mut self) {
-        let shape = self.rng.below(8);
+        let shape = self.rng.below(11);
         match shape {
             0 | 1 => {
                 // value <-> fresh input of equal value
@@ -913,6 +920,82 @@ impl<'a, BF: PrimeField64, EF: ExtensionField<BF>> Gen<'a, BF, EF> {
                     }
                     self.calls.push(Call::Connect(a, b));
                 }
+            }
+            8 | 9 => {
+                // ops that are duplicates only at witness level (operands aliased through connect),
+                // with the duplicate's output connected to a value held by an earlier op: a sub
+                // result, a div result, an earlier add, or an input an earlier op only reads
+                let a = self.any();
+                let bv = self.rand_val();
+                let b = self.fresh_input_eq(bv);
+                let c = self.fresh_input_eq(bv);
+                let k = if self.rng.chance(1, 2) { 2 } else { 0 }; // mul or add
+                let target_first = self.rng.chance(1, 2);
+                let val = if k == 2 { self.v(a) * bv } else { self.v(a) + bv };
+                let mk_target = |g: &mut Self| -> usize {
+                    match g.rng.below(4) {
+                        0 => {
+                            // d = p - kk with p = val + kk
+                            let kk = g.any();
+                            let pv = val + g.v(kk);
+                            let pi = g.fresh_input_eq(pv);
+                            g.op2(1, pi, kk)
+                        }
+                        1 => {
+                            // q = p / kk with p = val * kk
+                            if let Some(kk) = g.any_where(|s| s.val != EF::ZERO) {
+                                let pv = val * g.v(kk);
+                                let pi = g.fresh_input_eq(pv);
+                                g.calls.push(Call::Div(pi, kk));
+                                g.push_val(val, 3)
+                            } else {
+                                g.fresh_input_eq(val)
+                            }
+                        }
+                        2 => {
+                            // t = p + q with p = val - q
+                            let q = g.any();
+                            let pv = val - g.v(q);
+                            let pi = g.fresh_input_eq(pv);
+                            g.op2(0, pi, q)
+                        }
+                        _ => {
+                            // a private input that an earlier op only reads
+                            g.calls.push(Call::Private);
+                            g.privates.push(f_to_u64s::<BF, EF>(&val));
+                            let pi = g.push_val(val, 2);
+                            let o = g.any();
+                            g.op2(0, o, pi);
+                            pi
+                        }
+                    }
+                };
+                let t0 = if target_first { Some(mk_target(self)) } else { None };
+                self.calls.push(Call::Connect(b, c));
+                let m1 = self.op2(k, a, b);
+                let m2 = self.op2(k, a, c);
+                let t = match t0 {
+                    Some(t) => t,
+                    None => mk_target(self),
+                };
+                if self.rng.chance(1, 2) {
+                    self.calls.push(Call::Connect(m2, t));
+                } else {
+                    self.calls.push(Call::Connect(t, m2));
+                }
+                let _ = m1;
+            }
+            10 => {
+                // witness-level duplicate through the backwards encoding of sub: r = x - y is
+                // lowered as y + r = x, so s = y + r duplicates it; s is tied to an earlier add
+                let (x, y) = (self.any(), self.any());
+                let q = self.any();
+                let pv = self.v(x) - self.v(q);
+                let pi = self.fresh_input_eq(pv);
+                let t = self.op2(0, pi, q);
+                let r = self.op2(1, x, y);
+                let s2 = self.op2(0, y, r);
+                self.calls.push(Call::Connect(s2, t));
             }
             _ => {
                 // input connected to an op output created later
